@@ -13,7 +13,7 @@ class Contract:
     def __init__(self, module, qualname, props, params=None, returns=None, requires=(), ensures=(),
                  raises=None, raises_exact=(), modifies=(), loops=None, ensures_raise=None,
                  trusted=False, note='', ghost=None, verify=True, inline_callees=(), canary=True,
-                 result_alias=None, pure=False, decreases=None, lemmas=()):
+                 result_alias=None, pure=False, decreases=None, lemmas=(), ghost_out=None):
         self.module = module
         self.qualname = qualname
         self.props = [props] if isinstance(props, str) else list(props)
@@ -36,6 +36,7 @@ class Contract:
         self.pure = pure
         self.decreases = decreases
         self.lemmas = list(lemmas)
+        self.ghost_out = dict(ghost_out or {})   # function locals visible to ensures (existential at call sites)
 
     @property
     def key(self):
